@@ -190,6 +190,8 @@ func runMatch(cfg Config) {
 			c = g.MatchPlanted(true)
 		case "c03":
 			switch {
+			case i%7 == 3:
+				c = g.MatchBacktrack()
 			case i%5 == 0:
 				c = g.MatchMalformed()
 			case i%2 == 0:
@@ -198,7 +200,9 @@ func runMatch(cfg Config) {
 				c = g.MatchPlanted(false)
 			}
 		default: // c01
-			if i%3 == 0 {
+			if i%10 == 9 {
+				c = g.MatchBacktrack()
+			} else if i%3 == 0 {
 				c = g.MatchPlanted(true)
 			} else {
 				c = g.MatchPlanted(false)
